@@ -9,6 +9,7 @@ the `is None` guard and raises those errors; close() resets the handle in `final
 serial, port_path and the default timeout.  Not decided: behaviour of libusb, whole sessions over it.
 """
 import ast
+from ..terms import crepr
 
 from ..argrule import arg_rule
 from ..loader import AnalysisError
@@ -145,7 +146,7 @@ def _is_ms(t, tparam, default):
         alts = set(t[1])
         return len(alts) == 2 and bool(alts & {a_, a2_}) and bool(alts & {b_, b2_})     # which branch when: checked on _timeout_ms itself
     def intmul(x, v):
-        return x[0] == "call" and x[1] == "builtins.int" and len(x[2]) == 1 and not x[3] and x[2][0][0] == "op" and x[2][0][1] == "*" and sorted(x[2][0][2:], key=repr) == sorted([v, ("c", 1000)], key=repr)
+        return x[0] == "call" and x[1] == "builtins.int" and len(x[2]) == 1 and not x[3] and x[2][0][0] == "op" and x[2][0][1] == "*" and sorted(x[2][0][2:], key=crepr) == sorted([v, ("c", 1000)], key=crepr)
     # int(a if c else b)  ==  int(a) if c else int(b)
     if t[0] == "call" and t[1] == "builtins.int" and len(t[2]) == 1 and t[2][0][0] == "ite":
         x = t[2][0]
